@@ -147,6 +147,16 @@ func TestC17(t *testing.T) {
 		}
 		synctest.Test(t, func(t *testing.T) { c17Run(t, run, sc) })
 	}
+	// real time: commands that dispose targets while probe results that change their state come in
+	// (a command that then never returns is a deadlock, which virtual time cannot show: a goroutine
+	// waiting for a mutex stops the fake clock)
+	for g := 0; g < run.N(3, 40); g++ {
+		desc := map[string]any{"part": "dispose-vs-probe-results", "g": g}
+		if !run.Mine(n+g, desc) {
+			continue
+		}
+		liveDispose(t, run, g, desc)
+	}
 }
 
 type c17Exec struct {
